@@ -214,6 +214,7 @@ func cmdWorker(args []string, sweep bool) {
 		}
 		os.Exit(code)
 	}
+	var lastHot uint64
 	one := func(w *Workload) []uint64 {
 		fmt.Fprintf(os.Stderr, "SIM-BEGIN %d\n", w.Index)
 		races0 := simrt.RaceErrors()
@@ -253,6 +254,7 @@ func cmdWorker(args []string, sweep bool) {
 			}
 			wo.SampleWls = append(wo.SampleWls, mustJSON(ew))
 		}
+		lastHot = rep.HotHits
 		return rep.TaskSteps
 	}
 	for idx := *from; idx < *to; idx++ {
@@ -274,6 +276,16 @@ func cmdWorker(args []string, sweep bool) {
 		// every other task to completion, then resume it; k over all its yields
 		if len(w.Tasks) < 2 {
 			continue
+		}
+		// hot sweep: preempt the first task at each of its yields next to a
+		// shared-state access (none on a tree without package-level state)
+		for k := uint64(0); k < 300; k++ {
+			sw := w.clone()
+			sw.Sched = simrt.Schedule{Kind: simrt.StratHotPreempt, First: 0, Seed: w.Sched.Seed, HotK: k}
+			one(sw)
+			if lastHot <= k {
+				break
+			}
 		}
 		// at most ~400 preemption points per workload: stride over the first
 		// task's yields (count learnt from the k=0 run), random phase
